@@ -311,8 +311,8 @@ def partial_row_write(job):
             sim = symsim.SymSim(m)
     except Exception as ex:
         return []
-    i = (hash(job["id"]) >> 3) % cfg["depth"]
-    lo = 1 + (hash(job["id"]) % (w - 1)) if w > 2 else 1
+    i = (run.stable_hash(job["id"]) >> 3) % cfg["depth"]
+    lo = 1 + (run.stable_hash(job["id"]) % (w - 1)) if w > 2 else 1
     hi = w
     v = fresh("wv", hi - lo + 1, False)
 
